@@ -1,5 +1,6 @@
 // Binding between manif types and the reference model.
 #pragma once
+#include <limits>
 #include <manif/manif.h>
 #include "ref.hpp"
 #include <cstring>
@@ -110,6 +111,22 @@ template <class D> bool all_finite(const Eigen::MatrixBase<D>& m) {
     for (int j = 0; j < (int)m.cols(); ++j)
       if (!std::isfinite((double)m(i, j))) return false;
   return true;
+}
+
+// max |entry|, NaN-safe: Eigen's maxCoeff() silently skips NaN (its propagation is unspecified), which would turn an output
+// left unwritten (NaN sentinel) or a NaN produced by the subject into a small residual.  Any NaN makes the result +infinity.
+template <class D> typename D::Scalar maxabs(const Eigen::MatrixBase<D>& m0) {
+  typedef typename D::Scalar Sc;
+  typename D::PlainObject m = m0;
+  Sc r = 0;
+  for (int i = 0; i < (int)m.rows(); ++i)
+    for (int j = 0; j < (int)m.cols(); ++j) {
+      Sc x = m(i, j);
+      if (!(x == x)) return std::numeric_limits<Sc>::infinity();
+      if (x < 0) x = -x;
+      if (x > r) r = x;
+    }
+  return r;
 }
 
 // deviation of the rotation coefficients' norm from one, max over blocks
